@@ -543,7 +543,7 @@ func generate() {
 	runFilter("*", []string{"fa", "fb"}, [][]byte{t1, t2}, []string{"fa", "fb", "fa"})
 	runFilter(".unit:B/op", []string{"fa", "fb"}, [][]byte{t1, t2}, []string{"x=fa", "fb"})
 
-	n := hx.N(1200, 60000)
+	n := hx.N(5000, 60000)
 	for i := 0; i < n; i++ {
 		nRecs := 1 + r.Intn(8)
 		if i%10 == 0 {
@@ -551,7 +551,7 @@ func generate() {
 		}
 		genAPI(r, nRecs, i%4, i%16 == 15)
 	}
-	n = hx.N(500, 25000)
+	n = hx.N(2000, 25000)
 	for i := 0; i < n; i++ {
 		cr := 0
 		if i%25 == 24 {
@@ -565,7 +565,7 @@ func generate() {
 			runText(text)
 		}
 	}
-	n = hx.N(250, 12000)
+	n = hx.N(800, 12000)
 	for i := 0; i < n; i++ {
 		genFilter(r)
 	}
